@@ -44,6 +44,44 @@ type Input struct {
 	Kind string `json:"kind"` // run | stringify
 	Name string `json:"name"` // generator family
 	Prog Prog   `json:"prog"`
+	// how Prog was generated, for a compact Coq case (Corr/C15.v expands the same generators):
+	// BigN > 0: Prog = buildMap(BigN) ++ Tail; QuadR > 0: Prog = Head ++ QuadR x quadruple ++ Tail
+	BigN  int  `json:"big_n,omitempty"`
+	QuadR int  `json:"quad_r,omitempty"`
+	Head  Prog `json:"head,omitempty"`
+	Tail  Prog `json:"tail,omitempty"`
+}
+
+// buildMap = Corr/C15.v: build_map. A new map with n distinct 2-byte keys (key i = 7919*i mod 2^16,
+// little endian), value i mod 16, left on the evaluation stack.
+func buildMap(n int) Prog {
+	p := Prog{I("newmap"), I("toalt")}
+	for i := 0; i < n; i++ {
+		k := (i * 7919) % 65536
+		p = p.add(PushInt(int64(i % 16))).add(setFromAlt(PushBytes([]byte{byte(k % 256), byte(k / 256)}))...)
+	}
+	return p.add(I("fromalt"))
+}
+
+// quadruple = Corr/C15.v: quadruple. [x ..] -> [Serialize [x, x, x, x] ..]
+func quadruple() Prog {
+	p := Prog{I("dup"), I("dup"), I("dup"), PushInt(0), I("newarray"), I("toalt")}
+	for i := 0; i < 4; i++ {
+		p = p.add(appendFromAlt()...)
+	}
+	return p.add(I("fromalt"), I("serialize"))
+}
+
+func bigInput(n int, tail Prog) Input {
+	return Input{Kind: "run", Name: fmt.Sprintf("big-map-%d", n), Prog: buildMap(n).add(tail...), BigN: n, Tail: tail}
+}
+
+func quadInput(name string, head Prog, r int, tail Prog) Input {
+	p := append(Prog{}, head...)
+	for i := 0; i < r; i++ {
+		p = p.add(quadruple()...)
+	}
+	return Input{Kind: "run", Name: name, Prog: p.add(tail...), QuadR: r, Head: head, Tail: tail}
 }
 
 // ---------------------------------------------------------------- generators
@@ -417,18 +455,20 @@ func (g *pgen) soup() Prog {
 
 type runSet struct {
 	outs  []Outcome // distinct outcomes, in order of first appearance
+	keys  []string
 	count []int
 }
 
 func (r *runSet) add(o Outcome) {
 	k := o.Key()
-	for i := range r.outs {
-		if r.outs[i].Key() == k {
+	for i := range r.keys {
+		if r.keys[i] == k {
 			r.count[i]++
 			return
 		}
 	}
 	r.outs = append(r.outs, o)
+	r.keys = append(r.keys, k)
 	r.count = append(r.count, 1)
 }
 
@@ -525,9 +565,17 @@ func (d *driver) runAll(repeats, children int) {
 	}
 }
 
+// maxShown: distinct outcomes written out per program (evidence, replay file, Coq case); the number
+// of distinct outcomes is always given
+const maxShown = 6
+
 func describe(rs *runSet) []map[string]interface{} {
 	var out []map[string]interface{}
 	for i, o := range rs.outs {
+		if i == maxShown {
+			out = append(out, map[string]interface{}{"more_distinct_outcomes": len(rs.outs) - maxShown})
+			break
+		}
 		out = append(out, map[string]interface{}{"runs": rs.count[i], "outcome": o})
 	}
 	return out
@@ -555,7 +603,11 @@ func (d *driver) judge() {
 		}
 		rs := d.sets[i]
 		c.Count("family:" + in.Name)
-		c.Count(fmt.Sprintf("proglen:%d0s", len(in.Prog)/10))
+		if len(in.Prog) < 300 {
+			c.Count(fmt.Sprintf("proglen:%d0s", len(in.Prog)/10))
+		} else {
+			c.Count("proglen:300+")
+		}
 		for _, o := range rs.outs {
 			switch {
 			case o.Panic != "":
@@ -582,12 +634,19 @@ func (d *driver) judge() {
 			fails = append(fails, pendingFail{cl, in, describe(rs)})
 		}
 		if len(in.Prog) >= 8 && (len(rs.outs) > 1 || rs.outs[0].Fault == "" || rs.outs[0].Fault == "FSer ECircular") {
-			c.Nontrivial(in.Prog.String())
+			if len(in.Prog) < 300 {
+				c.Nontrivial(in.Prog.String())
+			} else {
+				c.Nontrivial(fmt.Sprintf("%s/%d/%s", in.Name, in.QuadR, in.Tail.String()))
+			}
 		}
 		// correspondence case
 		var obs []string
 		ok := true
-		for _, o := range rs.outs {
+		for k, o := range rs.outs {
+			if k == maxShown { // more than one is already a disagreement outside the finding class
+				break
+			}
 			s, good := o.coq()
 			if !good {
 				ok = false
@@ -596,8 +655,21 @@ func (d *driver) judge() {
 			obs = append(obs, s)
 		}
 		if ok {
-			c.Case(fmt.Sprintf("CRun %d%%nat %s %s", coqFuel, in.Prog.Coq(), hx.CoqList(obs)),
-				map[string]interface{}{"input": in, "observed": describe(rs)})
+			term := fmt.Sprintf("CRun %d%%nat %s %s", coqFuel, in.Prog.Coq(), hx.CoqList(obs))
+			desc := map[string]interface{}{"input": in, "observed": describe(rs)}
+			switch {
+			case in.BigN > 0:
+				term = fmt.Sprintf("CRunBig %d%%nat %d %s %s", coqFuel, in.BigN, in.Tail.Coq(), hx.CoqList(obs))
+			case in.QuadR > 0:
+				term = fmt.Sprintf("CRunQuad %d%%nat %s %d %s %s", coqFuel, in.Head.Coq(), in.QuadR, in.Tail.Coq(), hx.CoqList(obs))
+			}
+			if in.BigN > 0 || in.QuadR > 0 {
+				// the full instruction list is in the replay input only
+				short := in
+				short.Prog = nil
+				desc = map[string]interface{}{"input": short, "generator": "Prog = buildMap(big_n) ++ tail, or head ++ quad_r x quadruple ++ tail", "observed_outcomes": len(rs.outs)}
+			}
+			c.Case(term, desc)
 		}
 	}
 }
@@ -745,6 +817,47 @@ func Run(c *hx.Ctx) {
 	for k := 0; k < c.N(70, 700); k++ {
 		d.add(Input{Kind: "run", Name: "map-lifecycle", Prog: g.lifecycle()}, k < 8)
 	}
+	// 3d''. size limits that interact with maps. SETITEM has no limit on the number of entries of a map;
+	// KEYS / VALUES build an array (MAX_ARRAY_SIZE elements: one more and Append faults), Notify counts
+	// elements (MAX_COUNT), Serialize has only the byte limit.
+	k := PushBytes([]byte("k"))
+	bigs := []Input{
+		bigInput(1025, Prog{I("keys")}), bigInput(1025, Prog{I("values")}),
+		bigInput(1024, Prog{I("keys")}), bigInput(1024, Prog{I("values")}),
+		bigInput(1500, Prog{I("keys")}),
+		bigInput(1025, Prog{I("serialize"), k, I("put")}),
+	}
+	if !c.Quick() {
+		bigs = append(bigs,
+			bigInput(1024, Prog{I("values"), I("serialize"), k, I("put")}),
+			bigInput(1023, Prog{I("dup"), I("keys"), I("arraysize"), I("notify"), I("values"), I("notify")}),
+			bigInput(1500, Prog{I("values")}), bigInput(1500, Prog{I("dup"), I("serialize"), k, I("put"), I("keys")}),
+			bigInput(1024, Prog{I("keys"), I("notify")}))
+		for _, n := range []int{1023, 1024, 1025, 1026, 1500, 2048} {
+			bigs = append(bigs, bigInput(n, Prog{I("dup"), I("keys"), I("swap"), I("values")}), bigInput(n, Prog{I("keys"), I("notify")}),
+				bigInput(n, Prog{I("values"), I("notify")}), bigInput(n, Prog{I("dup"), I("serialize"), I("notify"), I("values"), I("serialize"), k, I("put")}),
+				bigInput(n, Prog{I("dup"), PushBytes([]byte{0, 0}), I("remove"), I("keys"), I("serialize"), k, I("put")}))
+		}
+	}
+	for i, in := range bigs {
+		d.add(in, i < 4)
+	}
+	// Serialize of a map whose encoding crosses MAX_BYTEARRAY_SIZE: x = 75 bytes, six times
+	// x := Serialize([x,x,x,x]) (about 324 kB), then a map with 3 (fits) or 4 (over 1 MiB) entries x
+	head := Prog{PushBytes(make([]byte, 75))}
+	mapOf := func(n int) Prog {
+		p := Prog{I("newmap"), I("toalt")}
+		for i := 0; i < n; i++ {
+			p = p.add(I("dup")).add(setFromAlt(PushInt(int64(i)))...)
+		}
+		return p.add(I("drop"), I("fromalt"))
+	}
+	d.add(quadInput("ser-size", head, 6, mapOf(3).add(I("dup"), I("serialize"), I("arraysize"), I("notify"), I("keys"))), true)
+	d.add(quadInput("ser-size", head, 6, mapOf(4).add(I("serialize"))), true)
+	if !c.Quick() {
+		d.add(quadInput("ser-size", head, 6, mapOf(4).add(I("dup"), I("values"), I("arraysize"), I("notify"), I("serialize"), k, I("put"))), false)
+		d.add(quadInput("ser-size", head, 7, Prog{I("arraysize")}), false)
+	}
 	// 3e. large maps: KEYS / VALUES at the array size limit (1024 / 1025 entries would need long
 	// programs; the limit itself is exercised through NEWARRAY + APPEND on arrays)
 	for _, n := range []int{16, 16} {
@@ -826,7 +939,7 @@ func Run(c *hx.Ctx) {
 
 	// samples for the evidence file
 	for i, in := range d.inputs {
-		if i < 3 || in.Name == "witness-chain10" {
+		if (i < 3 && len(in.Prog) < 300) || in.Name == "witness-chain10" {
 			c.Sample(map[string]interface{}{"program": in.Prog.String(), "family": in.Name, "runs": describe(d.sets[i])})
 		}
 	}
